@@ -2,7 +2,7 @@
 
 import itertools
 
-from ..common import canon, load_impl
+from ..common import blamed_name, canon, load_impl, runtime_kind
 from ..engine.shard import Acc, Family, split
 from ..ref import values as rv
 
@@ -411,8 +411,8 @@ def apply_impl(bs, glob, event):
         return ('value', canon(bs.evaluate_expression(expr, {'globals': glob, 'statementCount': 0}, {'abs': local_abs}, True)))
     except bs.BareScriptRuntimeError as exc:
         msg = str(exc)
-        if msg.startswith('Undefined function'):
-            return ('undefined', msg.split('"')[1])
+        if runtime_kind(msg) == 'other':     # the only runtime error these one-expression programs can meet: an unbound callee
+            return ('undefined', blamed_name(msg))
         return ('raise', 'BareScriptRuntimeError', msg)
     except Exception as exc:  # pylint: disable=broad-exception-caught
         return ('raise', type(exc).__name__, str(exc)[:200])
@@ -597,7 +597,7 @@ def check_host(case, acc):
     try:
         bs.execute_script(bs.parse_script(src), {'globals': glob})
     except bs.BareScriptRuntimeError as exc:
-        if kind == 0 and (pname == 'def-abs' or 'Undefined function' not in str(exc)):
+        if kind == 0 and (pname == 'def-abs' or runtime_kind(exc) != 'other'):
             acc.violation(c2, 'completes', str(exc), 'unexpected runtime error')
             return
         if kind == 0:
@@ -669,7 +669,7 @@ def check_host_each(case, acc):
     try:
         res = bs.execute_script(bs.parse_script("rr = arrayLength(arrayNew(1, 2)) + mathAbs(0 - 1)\nreturn rr\n"), {'globals': glob})
     except bs.BareScriptRuntimeError as exc:
-        if name in ('arrayLength', 'arrayNew', 'mathAbs') and case['kind'] == 1 and 'Undefined function' in str(exc):
+        if name in ('arrayLength', 'arrayNew', 'mathAbs') and case['kind'] == 1 and runtime_kind(exc) == 'other':
             res = 'undefined'
         else:
             acc.violation(c2, 'completes', str(exc), 'a library function is missing although the host supplied only one other name')
